@@ -115,5 +115,11 @@ def run(ctx: core.Ctx) -> int:
     ctx.floor("COV-FORM", n_form, 1, "returned covariance forms")
     ctx.floor("STATE-CALL", n_state, 1, "returned states")
     ctx.floor("PURE", n_pure, 5, "methods on the prediction path")
+    # the values of the compiled blocks go through python.BasicBlock: its temporaries protocol and trusted sympy signatures (shared with C01/C08)
+    from .. import tmprules as _tmp
+    for _rid, _t in (("TMP-1", "python prefix/body lambdify protocol"), ("TMP-2", "python execute protocol"), ("TMP-4", "CSE flag gates only cse()/simplify()"),
+                     ("TRUST-SIG", "trusted sympy call signatures")):
+        ctx.rule(_rid, _t)
+    _tmp.check_python_block(ctx, it.p.modules["python"])
     return core.finish(ctx, explanation="E2 axis typing + E3 normal form of process_model's result, name-keyed noise table, "
                                         "effect analysis of the prediction path", **META)
